@@ -25,8 +25,8 @@ RULE = 'source x set of rewrite kinds; non-trivial = the rewrite changed the sou
 BOUNDS = {'quick': 'k<=1 whole-file + single-line kinds on sources <= 120 lines', 'thorough': 'k<=2 whole-file + single-line kinds on sources <= 400 lines'}
 ASSUMPTIONS = ['tests/<t>/<t>.ori is the correct image of tests/<t>/<t>.asm']
 
-KINDS = ['opcase-up', 'opcase-low', 'symcase', 'ws-tab', 'ws-blanks', 'comment', 'blankline', 'commentline', 'crlf', 'colon-add', 'colon-del', 'include', 'macro']
-LINE_KINDS = ['opcase-up', 'opcase-low', 'ws-tab', 'comment', 'blankline', 'commentline', 'colon-add', 'colon-del']
+KINDS = ['opcase-up', 'opcase-low', 'symcase', 'ws-tab', 'ws-blanks', 'ws-inner-tab', 'ws-inner-tabblank', 'comment', 'blankline', 'commentline', 'crlf', 'colon-add', 'colon-del', 'include', 'macro']
+LINE_KINDS = ['opcase-up', 'opcase-low', 'ws-tab', 'ws-inner-tab', 'ws-inner-tabblank', 'comment', 'blankline', 'commentline', 'colon-add', 'colon-del']
 
 GEN = {
     'g_rept_refs': '\tcpu z80\nstart:\tld a,1\ntab:\tdb 1,2,3\n\trept 2\n\tdw tab,start\n\tendm\n\tirp x,1,2\n\tdb x\n\tdw start\n\tendm\nm\tmacro\n\tdw tab\n\tjp start\n\tendm\n\tm\n',
@@ -82,6 +82,19 @@ def rw_line(l, kind, prev_cont, defined):
         if m:
             sep = '\t' if kind == 'ws-tab' else '        '
             return [m.group(1) + sep + m.group(3) + (sep if m.group(4) else '') + m.group(5) + com]
+        return [l]
+    if kind in ('ws-inner-tab', 'ws-inner-tabblank'):
+        # the first run of blanks/tabs INSIDE the operand field, where it separates two words (targets that carry a second
+        # instruction in the operand field - RPTC #n <insn>, [cond] <insn>, OP ... - split it there once more)
+        m = fields(code)
+        # only where the words of the operand field are fields of their own: a second instruction behind RPTC/RPTZ (MSP430X), a
+        # [condition] (C6x), OP (uPD7720), and the blank-separated parallel moves of the DSP56xxx; elsewhere (`byte ptr [bx]`,
+        # the keyword clauses of SCSI SCRIPTS) blanks inside an operand are part of the operand syntax, not field separators
+        if m and m.group(5) and (m.group(3).lower() in ('rptc', 'rptz', 'op') or m.group(3).startswith('[') or 'dsp56' in defined):
+            mm = re.match(r'^([^\s"\'();]+)([ \t]+)([A-Za-z_.#\[(].*)$', m.group(5))
+            if mm and not mm.group(1).endswith(','):
+                sep = '\t' if kind == 'ws-inner-tab' else '\t '
+                return [m.group(1) + m.group(2) + m.group(3) + m.group(4) + mm.group(1) + sep + mm.group(3) + com]
         return [l]
     if kind == 'comment':
         if com == '' and code.strip() and (code.count('"') + code.count("'")) % 2 == 0:
@@ -146,6 +159,8 @@ def rewrite(text, kinds, only_line=None):
     eol = '\n'
     lines = text.replace('\r\n', '\n').split('\n')
     defined = defined_symbols(text) if 'symcase' in kinds else set()
+    if re.search(r'^\s+cpu\s+56\d', text, re.M | re.I):
+        defined = set(defined) | {'dsp56'}      # marker: operands are blank-separated fields on this target
     for kind in kinds:
         if kind in ('crlf', 'include', 'macro'):
             continue
@@ -201,7 +216,7 @@ def subspaces(tier):
             txt = src_text(t)
             for r in range(1, k + 1):
                 for ks in itertools.combinations(KINDS, r):
-                    if 'opcase-up' in ks and 'opcase-low' in ks or 'ws-tab' in ks and 'ws-blanks' in ks or 'colon-add' in ks and 'colon-del' in ks:
+                    if 'opcase-up' in ks and 'opcase-low' in ks or 'ws-tab' in ks and 'ws-blanks' in ks or 'ws-inner-tab' in ks and 'ws-inner-tabblank' in ks or 'colon-add' in ks and 'colon-del' in ks:
                         continue
                     if 'macro' in ks and not (macro_ok(txt) or t in ('g_rept_refs', 'g_par', 'g_cond')):
                         continue
@@ -219,7 +234,7 @@ def subspaces(tier):
             for i, l in enumerate(lines):
                 for kind in LINE_KINDS:
                     pc = i > 0 and cont(lines[i - 1])
-                    if rw_line(l, kind, pc, set()) != [l]:
+                    if rw_line(l, kind, pc, {'dsp56'} if t.startswith('t_56') else set()) != [l]:
                         yield {'t': t, 'kinds': [kind], 'line': i}
     subs.append(('single-line(sources<=%d lines)' % maxl, single()))
     return subs
